@@ -304,6 +304,11 @@ def build(run):
     symmetric("triangle", 2, "identity")
     symmetric("tetrahedron", 3, "identity")
     symmetric("triangle", 2, "contra")
+    # immersed cells: the physical shape of a Piola-mapped sub-element (gdim) differs from its reference shape (tdim)
+    symmetric("triangle", 3, "contra")
+    symmetric("triangle", 3, "cov")
+    symmetric("interval", 2, "contra")
+    symmetric("triangle", 3, "identity")
 
     # ---- the mixed space that derivative() builds for a TUPLE of coefficients (an internal mixed element of ufl.formoperators): the argument it
     # creates is pushed forward block-wise by the declared maps of the coefficients' elements, whatever mix of identity and Piola kinds they are
